@@ -422,7 +422,7 @@ func ruleAliasBuf(w *World, r *RuleResult) {
 		fn  string
 	}
 	var reuses []reuse
-	for _, fn := range libFuncs(w) {
+	for _, fn := range libRoots(w) {
 		paths, err := w.Paths(fn)
 		if err != nil {
 			continue
